@@ -277,6 +277,10 @@ def rules(ctx):
     r1_constant(ctx)
     r2_lme(ctx)
     r3_inputs_untouched(ctx)
+    # a saved and re-loaded benchmark model is the same estimator: the options that select the estimator (prediction type of the constant model
+    # is in the algorithm; random slope of the LME is in the model) are written by to_dict and read back by the constructor (same rule as C12.R2)
+    from .c12 import r2_hyperparameters
+    r2_hyperparameters(ctx, rid="C20.R4", only_classes={"LMEModel", "ConstantModel"})
     ctx.trust("numpy nanmax / nanmean / argmax / fancy indexing semantics; statsmodels MixedLM results (fe_params, cov_re_unscaled)")
 
 
